@@ -472,6 +472,9 @@ func (f *frame) doAppend(cm *ssa.CallCommon, pos token.Pos, st *State, name stri
 	// when cap is exceeded, which cannot happen for n = 0 (0 <= cap). Fine.
 	f.tagAlloc(st, id, et)
 	f.appendHeaps(st, et, s.T, t.T, inplace, id)
+	// an in-place append leaves every cell where it was: cell i of the result IS cell i of the source. A consequence of the
+	// definition of selem, stated so that a fact about the source's cells can be matched from a term about the result's.
+	c.assume(st, fmt.Sprintf("(forall ((i Int)) (! (=> %s (= (selem %s i) (selem %s i))) :pattern ((selem %s i))))", inplace, res, s.T, res))
 	return Val{T: res, Typ: slT}
 }
 
